@@ -290,6 +290,56 @@ def wrap(p):
     return a if a is not None else A("poly", p)
 
 
+_NONE = None
+
+
+def _none():
+    return A("const", None)
+
+
+def _mk_slice(axis, hi):
+    sl = A("slice", _none(), hi, _none())
+    if axis == 0:
+        return sl
+    return A("tuple", A("slice", _none(), _none(), _none()), sl)
+
+
+def _prefix_slice(fi):
+    """(axis, hi) if the frozen index is a[:hi] or a[:, :hi]"""
+    def is_prefix(x):
+        return isinstance(x, Node) and x.op == "slice" and len(x.kids) == 3 and x.kids[0] is _none() and x.kids[2] is _none() and x.kids[1] is not _none()
+
+    def is_full(x):
+        return isinstance(x, Node) and x.op == "slice" and all(k is _none() for k in x.kids)
+
+    if is_prefix(fi):
+        return (0, fi.kids[1])
+    if isinstance(fi, Node) and fi.op == "tuple" and len(fi.kids) == 2 and is_full(fi.kids[0]) and is_prefix(fi.kids[1]):
+        return (1, fi.kids[1].kids[1])
+    return None
+
+
+def _combine_bounds(a, b):
+    if a is b:
+        return a
+    if isinstance(b, Node) and b.op == "min" and a in b.kids:
+        return b
+    if isinstance(a, Node) and a.op == "min" and b in a.kids:
+        return a
+    return A("min", *sorted([a, b], key=id))
+
+
+def _slice_atom(x, axis, hi):
+    """x[:hi] / x[:, :hi] with composition of nested prefix slices and transposes"""
+    if x.op == "t":
+        return A("t", _slice_atom(x.kids[0], 1 - axis, hi))
+    if x.op == "getitem":
+        inner = _prefix_slice(x.kids[1])
+        if inner is not None and inner[0] == axis:
+            return A("getitem", x.kids[0], _mk_slice(axis, _combine_bounds(inner[1], hi)))
+    return A("getitem", x, _mk_slice(axis, hi))
+
+
 def _const_index(f):
     return isinstance(f, Fraction)
 
@@ -318,7 +368,7 @@ class Normalizer:
         if isinstance(x, tuple):
             return tuple(self.freeze(y) for y in x)
         if isinstance(x, Dim):
-            return A("dimv", repr(x))
+            return wrap(self.dim_poly(x))
         return x
 
     def scalar(self, t):
@@ -348,11 +398,7 @@ class Normalizer:
                 return P_atom(A("sym", a[0]), scalar=True)
             return P_atom(A("sym", a[0]))
         if op == "dim":
-            d = a[0]
-            out = P_const(d.c)
-            for atom, k in d.lin:
-                out = p_add(out, p_scale(P_atom(A("size", atom if isinstance(atom, str) else repr(atom)), scalar=True), k))
-            return out
+            return self.dim_poly(a[0])
         if op == "add":
             return p_add(self.nf(a[0]), self.nf(a[1]))
         if op == "sub":
@@ -414,7 +460,11 @@ class Normalizer:
                     b = b.args[0]
                     continue
                 break
-            return P_atom(A("getitem", wrap(self.nf(b)), fi))
+            pb = self.nf(b)
+            ax = _prefix_slice(fi)
+            if ax is not None and pb:
+                return self._slice_poly(pb, ax[0], ax[1], fi)
+            return P_atom(A("getitem", wrap(pb), fi))
         if op == "store":
             base, idx, val = a
             fi = self.freeze(idx)
@@ -423,7 +473,85 @@ class Normalizer:
             return P_atom(A("store", wrap(self.nf(base)), fi, wrap(self.nf(val))))
         if op == "unk":
             return P_atom(A("unk", a[0], a[1]))
+        if op in ("min", "max"):
+            kids = []
+            for x in a:
+                fx = self.freeze(x)
+                if isinstance(fx, Node) and fx.op == op:
+                    kids.extend(fx.kids)
+                else:
+                    kids.append(fx)
+            kids = sorted(set(kids), key=id)
+            if len(kids) == 1 and isinstance(kids[0], Node):
+                return P_atom(kids[0], scalar=True)
+            return P_atom(A(op, *kids), scalar=True)
         return P_atom(A(op, *[self.freeze(x) for x in a]))
+
+    def dim_poly(self, d):
+        """scalar polynomial of a symbolic integer (linear form over size atoms)"""
+        out = P_const(d.c)
+        for atom, k in d.lin:
+            out = p_add(out, p_scale(self.dim_atom(atom), k))
+        return out
+
+    def dim_atom(self, atom):
+        if isinstance(atom, str):
+            return P_atom(A("size", atom), scalar=True)
+        tag = atom[0]
+        if tag == "t":
+            return self.scalar(atom[1])
+        if tag in ("min", "max"):
+            kids = sorted((wrap(self.dim_poly(x)) for x in atom[1:]), key=id)
+            # flatten nested min/max of the same kind
+            flat = []
+            for kx in kids:
+                if isinstance(kx, Node) and kx.op == tag:
+                    flat.extend(kx.kids)
+                else:
+                    flat.append(kx)
+            flat = sorted(set(flat), key=id)
+            if len(flat) == 1:
+                return P_atom(flat[0], scalar=True) if isinstance(flat[0], Node) else P_const(flat[0])
+            return P_atom(A(tag, *flat), scalar=True)
+        if tag == "mul":
+            return p_had(self.dim_poly(atom[1]), self.dim_poly(atom[2]))
+        if tag == "fdiv":
+            return P_atom(A("fdiv", wrap(self.dim_poly(atom[1])), wrap(self.dim_poly(atom[2]))), scalar=True)
+        return P_atom(A("size", repr(atom)), scalar=True)
+
+    def _slice_poly(self, p, axis, hi, fi):
+        """prefix slice [:hi] on axis 0 (rows of the first factor) or axis 1 (columns of
+        the last factor) distributed over sums and pushed into matmul chains"""
+        d = {}
+        for (s, chain), k in p:
+            if not chain:
+                atom = A("getitem", A("poly", frozenset([((s, chain), k)])), fi)
+                m = (EMPTY_S, (atom,))
+                d[m] = d.get(m, 0) + 1
+                continue
+            pos = 0 if axis == 0 else len(chain) - 1
+            x = chain[pos]
+            if axis == 1 and x.op == "dg":
+                # columns of A @ dg(v): slice both
+                newx = A("dg", self._slice_poly(x.kids[0], 0, hi, _mk_slice(0, hi)))
+                if len(chain) >= 2:
+                    prev = _slice_atom(chain[pos - 1], 1, hi)
+                    newchain = chain[: pos - 1] + (prev, newx)
+                else:
+                    newchain = (newx,)
+            elif axis == 0 and x.op == "dg":
+                newx = A("dg", self._slice_poly(x.kids[0], 0, hi, _mk_slice(0, hi)))
+                if len(chain) >= 2:
+                    nxt = _slice_atom(chain[1], 0, hi)
+                    newchain = (newx, nxt) + chain[2:]
+                else:
+                    newchain = (newx,)
+            else:
+                newx = _slice_atom(x, axis, hi)
+                newchain = chain[:pos] + (newx,) + chain[pos + 1:]
+            m = (s, newchain)
+            d[m] = d.get(m, 0) + k
+        return _mk(d)
 
     def linear_reduce(self, op, a, cyclic=False):
         inner = self.nf(a[0])
